@@ -3,6 +3,7 @@ package main
 import (
 	"fmt"
 	"math"
+	"strconv"
 	"strings"
 )
 
@@ -217,7 +218,25 @@ func (g *LibGen) genBatch() string {
 			// duplicate an earlier time with another value (same slot, same or different t)
 			prev := pts[g.r.Intn(len(pts))]
 			tt := prev[:strings.IndexByte(prev, ':')]
-			pts = append(pts, tt+":"+genVal(g.r, g.exotic))
+			v := genVal(g.r, g.exotic)
+			if g.r.Chance(1, 4) {
+				// the later copy of a repeated time carries no value: it still wins
+				v = "7ff8000000000001"
+			}
+			pts = append(pts, tt+":"+v)
+			continue
+		}
+		if g.r.Chance(1, 4) {
+			// a time on the grid of one of the archives (repetitions of it are merged by
+			// the batch alignment before anything is written)
+			p := g.genPoint()
+			i := strings.IndexByte(p, ':')
+			t, _ := strconv.Atoi(p[:i])
+			st := g.lay.Steps[g.r.Intn(g.lay.K())]
+			if t-t%st >= 1 {
+				t -= t % st
+			}
+			pts = append(pts, fmt.Sprintf("%d%s", t, p[i:]))
 			continue
 		}
 		pts = append(pts, g.genPoint())
